@@ -885,16 +885,21 @@ fn run_c20(thorough: bool, out: &mut Out) {
         c20_check(&mut j, &mut fits, &[sized(1, a), sized(2, half), sized(3, 1)], out);
     }
     // boundary walks with many spans in the datagram (the list header grows at 15 and at 128
-    // elements): n equal spans sized so that together they sit just below the limit, then one span
-    // grown byte by byte across it
-    for n in [14usize, 15, 16, 20, 127, 128, 140] {
-        // name length per span such that n spans fill a datagram almost exactly
-        let per = (LIMIT.saturating_sub(overhead + 8)) / n;
-        let base = per.saturating_sub(overhead.min(per) / 2).max(1);
-        for grow in 0..120usize {
-            let mut input: Vec<SpanRecord> = (0..n).map(|i| sized(i as u64 + 1, base.saturating_sub(40).max(1))).collect();
-            input[n / 2] = sized(n as u64 / 2 + 1, base.saturating_sub(40).max(1) + grow * (if n > 100 { 1 } else { 1 }));
-            c20_check(&mut j, &mut fits, &input, out);
+    // elements): n equal spans that together stay a little below the limit, then one of them
+    // grown byte by byte until the batch no longer fits one datagram (and 40 bytes beyond)
+    {
+        // encoded size of one more span with an empty name, measured on two-span datagrams
+        let (s2, _) = j.send(&[sized(1, 0), sized(2, 0)], Duration::from_secs(10)).unwrap_or((vec![0], vec![]));
+        let per_span = s2.first().copied().unwrap_or(2 * overhead).saturating_sub(overhead).max(20);
+        for n in [14usize, 15, 16, 20, 127, 128, 140] {
+            // name length such that n spans take about LIMIT - 300 bytes
+            let base = ((LIMIT - 300).saturating_sub(overhead)) / n;
+            let name = base.saturating_sub(per_span);
+            for grow in 0..360usize {
+                let mut input: Vec<SpanRecord> = (0..n).map(|i| sized(i as u64 + 1, name)).collect();
+                input[n / 2] = sized(n as u64 / 2 + 1, name + grow);
+                c20_check(&mut j, &mut fits, &input, out);
+            }
         }
     }
     // many small spans: the splitter must still deliver each exactly once, in order
